@@ -17,6 +17,7 @@ mod routes;
 mod routes_gen;
 mod c02;
 mod c11;
+mod c11x;
 mod c12;
 mod c12x;
 mod c12fs;
